@@ -855,5 +855,8 @@ func c05Random[V any](c *run.Ctx, k omKind[V], phase string) {
 		if len(alphabet) > 4 {
 			c.Feature(phase, i)
 		}
+		if c.WantSample() {
+			c.Sample(map[string]any{"phase": phase, "alphabet": len(alphabet), "first_ops": histString(hist), "final_keys": p.Len(), "final_layout_slots": len(m.VerifSlots())})
+		}
 	})
 }
